@@ -6,6 +6,14 @@ HERE = os.path.dirname(os.path.dirname(os.path.abspath(__file__)))
 
 # id -> (category, technique, text, note)
 CLAIMED = {
+ "C19": ("other", "comprehension-structure and axis-discipline lint of the per-patch tables, polynomial normal forms of the corner/centre tables (min terms as atoms) against the axis table, provenance of the patch size, re-evaluation of the bounded-selection rule of Image.subregion (ast)",
+         "Narrow claim. Decided: every per-patch table uses rows = outer index over num_patches[0] with pv[0]/ov[0] and columns = inner index "
+         "over num_patches[1] with pv[1]/ov[1], and call/set/assemble address patches[row][col] alike; a patch is base.subregion(rois[i][j]) "
+         "and subregion bounds the selection; local corners = global corners - corner 0; voxel and Cartesian corners are listed in the same "
+         "order with the orientation the axis table prescribes; centres are corner 0 plus half a patch; whether both table families derive "
+         "from one patch size (known finding for non-divisible extents). Not decided: gap-free / overlap-free tiling and exact re-assembly "
+         "for every shape, count and overlap (integer inequalities with max/ceil/clipping: solver territory).",
+         "Trusted: python ast parser; sa/algebra.py; C02.a/C20 tables."),
  "C11": ("other", "provenance of the metadata carried through each resampling/reduction, table-backed folding of the (matrix index, Cartesian axis) pair, polynomial normal form of the conservative factor, def-use slice of the coarsening step, option-chain binding lint (ast)",
          "Narrow claim. Decided: resize / refinement / equalisation keep dimensions and origin; axis reduction removes the dimension and "
          "origin component of the same axis under either spelling (table-backed, dims 2-3); extrusion prepends the height on matrix axis 0; "
